@@ -104,19 +104,25 @@ def step(all_rows: List[int], fetched: int, op: int, n: int, arraysize: int) -> 
 OPNAMES = ['fetchone', 'fetchmany_n', 'fetchmany', 'fetchall', 'iterate_n', 'reexecute', 'othercursor']
 
 
-def _hist_body(opcodes, nrows, sizes, arraysize):
+def _hist_body(opcodes, nrows, sizes, arraysize, via_conn=False):
     assume(0 <= nrows <= 3 and 1 <= arraysize <= 3)
     for n in sizes:
         assume(0 <= n <= 4)
     table = HTable('t', [('x', int)], [(i,) for i in range(nrows)])
     conn = connect(t=table)
     stmt = 'SELECT x FROM #t'
-    cur = conn.cursor()
-    other = conn.cursor()
-    if cur.description is not None or cur.rowcount != -1:
-        return 'fresh-attrs'
-    cur.arraysize = arraysize
-    cur.execute(parse(stmt))
+    if via_conn:
+        # the cursors are the ones Connection.execute() hands out
+        cur = conn.execute(parse(stmt))
+        cur.arraysize = arraysize
+        other = None
+    else:
+        cur = conn.cursor()
+        other = conn.cursor()
+        if cur.description is not None or cur.rowcount != -1:
+            return 'fresh-attrs'
+        cur.arraysize = arraysize
+        cur.execute(parse(stmt))
     rows = [(i,) for i in range(nrows)]
     fetched = 0
     label = _attrs(cur, rows, fetched)
@@ -127,7 +133,12 @@ def _hist_body(opcodes, nrows, sizes, arraysize):
             cur.execute(parse(stmt))
             fetched = 0
         elif op == 6:
-            other.execute(parse('SELECT x + 1 FROM #t'))
+            if via_conn:
+                other = conn.execute(parse('SELECT x + 1 FROM #t'))
+                if other is cur:
+                    return 'connection-execute-returned-a-cursor-in-use'
+            else:
+                other.execute(parse('SELECT x + 1 FROM #t'))
             other.fetchone()
         else:
             label, fetched = _apply(cur, op, n, rows, fetched)
@@ -145,12 +156,13 @@ def _make_hist(opcodes, quick, thorough):
     name = '+'.join(OPNAMES[o] for o in opcodes)
 
     @cond(f'C10.hist.{name}', quick=quick, thorough=thorough,
-          bounds='result of 0..3 rows; this fixed operation sequence after execute; sizes 0..4, arraysize 1..3',
-          symbolic='row count, sizes of each operation, arraysize',
+          bounds='result of 0..3 rows; this fixed operation sequence after execute; sizes 0..4, arraysize 1..3; cursors made '
+                 'with Connection.cursor() or handed out by Connection.execute()',
+          symbolic='row count, sizes of each operation, arraysize, how the cursors are obtained',
           enumerated='operation sequence (one condition per sequence: all of length 1 and 2 quick, 3 thorough)',
-          params={'nrows': int, **{f'n{i}': int for i in range(len(opcodes))}, 'arraysize': int})
-    def hist(nrows, arraysize, **sizes):
-        return _hist_body(opcodes, nrows, [sizes[f'n{i}'] for i in range(len(opcodes))], arraysize)
+          params={'nrows': int, **{f'n{i}': int for i in range(len(opcodes))}, 'arraysize': int, 'via_conn': bool})
+    def hist(nrows, arraysize, via_conn, **sizes):
+        return _hist_body(opcodes, nrows, [sizes[f'n{i}'] for i in range(len(opcodes))], arraysize, bool(via_conn))
 
 
 for _a in range(7):
